@@ -97,13 +97,27 @@ for (nm, ob, d) in [
 def _read(path):
     return lambda ws: open(path).read()
 
-INJ = [
-    dict(file=DE, module_fn=_read(os.path.join(_C01, "de.kani.rs"))),
-    dict(file=UFB, module_fn=_read(os.path.join(_HERE, "ufb.kani.rs"))),
-    dict(file=DD, module_fn=_read(os.path.join(_HERE, "dd.kani.rs"))),
-    dict(file=WD, module_fn=_read(os.path.join(_HERE, "wd.kani.rs"))),
+def _ufb(api_only):
+    def f(ws):
+        s = open(os.path.join(_HERE, "ufb.kani.rs")).read()
+        if api_only:
+            a, b = s.index("//@@INTERNALS-BEGIN"), s.index("//@@INTERNALS-END")
+            s = s[:a] + s[b + len("//@@INTERNALS-END"):]
+        return s
+    return f
+
+_INTERNAL = lambda h: any(k in h["name"] for k in ("::vd_", "value_deserializer_", "key_is_recorded", "stale_key_is_cleared"))
+_DE = dict(file=DE, module_fn=_read(os.path.join(_C01, "de.kani.rs")))
+KANI_UNITS = [
+    # api: only the public Behavior / Deserializer traits are named, so a refactoring of the private helper types
+    # (KeyVisitor, ValueDeserializer, StructMapAccess, ...) cannot make these obligations undecided
+    dict(name="unknown_fields_api", crate="conjure-serde", modpath="",
+         injections=[_DE, dict(file=UFB, module_fn=_ufb(True)), dict(file=DD, module_fn=_read(os.path.join(_HERE, "dd.kani.rs"))), dict(file=WD, module_fn=_read(os.path.join(_HERE, "wd.kani.rs")))],
+         harnesses=[h for h in _h if not _INTERNAL(h)]),
+    dict(name="unknown_fields_internals", crate="conjure-serde", modpath="",
+         injections=[_DE, dict(file=UFB, module_fn=_ufb(False))],
+         harnesses=[h for h in _h if _INTERNAL(h)]),
 ]
-KANI_UNITS = [dict(name="unknown_fields", crate="conjure-serde", modpath="", injections=INJ, harnesses=_h)]
 
 def scan_wiring(repo):
     """syntactic: the server deserializers instantiate impl_deserialize_body! with UnknownFieldsBehavior<ValueBehavior>, the client ones with ValueBehavior"""
